@@ -76,6 +76,10 @@ fn main() {
             let child = args.get(2).and_then(|s| s.parse().ok()).unwrap_or(0);
             std::process::exit(driver::worker_main(core, child))
         }
+        "dettest" => {
+            let n = args.get(1).and_then(|s| s.parse().ok()).unwrap_or(300);
+            std::process::exit(c20::determinism_test(report::seed_from_env(), n))
+        }
         "selftest" => std::process::exit(selftest::run()),
         "smoke" => smoke::run(args.get(1).map(|s| s.as_str()).unwrap_or("")),
         _ => usage(),
